@@ -6,7 +6,7 @@ FitResult / the caller's circuit are inspected.
 
 Clauses (one mechanism-key family each):
   recovery     (only items with recover=True: identifiable family, noise-free data, class-default limits, default
-               method="auto", weight="auto"): per fit pseudo_chisqr <= CHI_TOL, and when pseudo_chisqr <= CONV_CHI every
+               method="auto", weight="auto"): per fit pseudo_chisqr <= CHI_TOL and every
                generating value is reproduced within PAR_TOL (relative), modulo the order of interchangeable parallel
                blocks of identical shape (items whose generating values cannot be represented to RES_TOL inside the class-
                default limit box are judged under the separate key C12/recovery-limit-range-resolution and are left
@@ -48,11 +48,15 @@ ID = "C12"
 RULE = (
     "items = (start circuit spec, spectrum, options) generated from rng([seed, kind, index]). Recovery items: the six "
     "identifiable families R(RC), R(RQ), R(RC)(RC), R(RC)(RQ), R(C[RW]), RL(RQ) with resistances over 4 (thorough: 8) decades, "
-    "time constants >=1 decade apart and inside a 6-8 decade window, start = truth perturbed by up to x3 (exponents +-0.1), "
-    "fit_circuit(method='auto', weight='auto'). Invariant items: 14 circuit shapes (2..13 elements, incl. labels, W/Wo/Ws/"
+    "comparable resistances (within x2 of a common scale), CPE exponents 0.75-0.92, time constants >=1 decade (RC next to RQ: 2) "
+    "apart and >=0.8 decade inside a 6-8 decade window of 6-10 points/decade, start = truth perturbed by up to x3 (exponents "
+    "+-0.05), fit_circuit(method='auto', weight='auto'); items whose values lmfit cannot represent to 1e-3 inside the class-"
+    "default limit box are excluded from the standard range and judged under a separate key in the wide range. "
+    "Invariant items: 14 circuit shapes (3..14 elements, incl. labels, W/Wo/Ws/"
     "Zarc/La/Tlm), per-parameter limit boxes {class default, tight around start, excluding the optimum, one-sided, above/"
     "below the class defaults}, random fixed subsets, 0-1% noise, one (method, weight) cell per fit cycling through all "
-    "9x4 cells (plus method/weight lists and pool runs), optional constraint expressions of 5 kinds. A fit is non-trivial "
+    "9x4 cells (plus method/weight lists and pool runs, max_nfev in {unlimited, 40, 400}), optional constraint expressions of 6 "
+    "kinds (incl. auxiliary variables named like <name>_<element index>). A fit is non-trivial "
     "when it returned and was checked; distinct = distinct (shape, cell, fixed mask, box kinds, constraint kind, labels) keys."
 )
 ASSUMPTIONS = [
@@ -65,23 +69,24 @@ SHARDS = 16
 CASE_TIMEOUT = 900
 MIN_EVALS = 100
 
-# frozen tolerances (calibration: see report / evidence worst_observed)
-# Recovery is decided on three levels because the library minimises sum((w*e^2)^2) - a quartic loss whose convergence has a
-# soft tail: on the unchanged tree ~5% of the auto fits stop at chi^2 1e-8..1e-4 (worst seen 9.0e-5 with one CPE parameter
-# 13.6% off) although the median is 1e-13.  A per-fit tolerance 100x above that tail cannot also be "vanishing", so:
-CHI_TOL = 1e-2        # every fit: pseudo chi-squared (worst observed 9.0e-5; the 'pick the worst candidate' mutant gives 3e-2..1e16)
-CONV_CHI = 1e-8       # a fit that reached this chi-squared (the design's tolerance) ...
-PAR_TOL = 0.2         # ... must reproduce every generating value within this (worst observed among 1444 such fits 2.1e-3)
-DESIGN_PAR = 1e-3     # the design's per-fit parameter tolerance, used in the quantile criterion
-MIN_CONVERGED = 0.7   # run level: fraction of recovery fits with chi^2 <= CONV_CHI and error <= DESIGN_PAR (observed 0.90..0.97)
-MED_CHI_TOL = 1e-9    # run level: median chi^2 over all recovery fits (observed 1e-14..2e-12)
-MED_PAR_TOL = 1e-4    # run level: median relative parameter error (observed 3e-7..1e-6)
+# Frozen tolerances.  Calibration on the unchanged tree, final generator, 5 quick + 2 thorough seeds = 870 recovery fits in the
+# standard class: worst pseudo chi-squared 4.1e-8, worst relative parameter error 5.6e-4, per-run median chi-squared
+# 2e-14..7e-14, median parameter error 9e-8..3e-7, fraction meeting the design's 1e-8 / 1e-3: 0.989..1.0.  (The design's
+# per-fit 1e-8 / 1e-3 is therefore kept as a quantile criterion; the per-fit tolerances sit >= 100x above the worst case.)
+CHI_TOL = 1e-4        # every recovery fit: pseudo chi-squared ('pick the worst candidate' mutant: 3e-2..1e17)
+PAR_TOL = 0.1         # every recovery fit: relative error of every generating value
+CONV_CHI = 1e-8       # the design's tolerances, used at run level:
+DESIGN_PAR = 1e-3
+MIN_CONVERGED = 0.7   # run level: fraction of recovery fits with chi^2 <= CONV_CHI and error <= DESIGN_PAR
+MED_CHI_TOL = 1e-9    # run level: median chi^2 over all recovery fits
+MED_PAR_TOL = 1e-4    # run level: median relative parameter error
 FAM_MED_CHI_TOL = 1e-8  # per family median when >= 20 fits of that family were checked
-CONSTR_TOL = 1e-9
-RES_TOL = 1e-3        # recovery items in which some free generating value is coarser than this (relative spacing of lmfit's
-                      # bounded-parameter transformation inside the class-default limit box) form the 'limit-resolution' regime:
-                      # their failures carry the separate key C12/recovery-limit-range-resolution and they are left out of
-                      # the run-level statistics
+CONSTR_TOL = 1e-9     # constraint expressions (observed deviation: exactly 0.0 in 3800 checks)
+RES_TOL = 1e-3        # recovery items in which some free generating value v has (upper-lower)*2**-54/v > RES_TOL inside its (class-
+                      # default) limit box - lmfit's bounded-parameter transform cannot represent v to 0.1% - form the 'limit-
+                      # resolution' class: their failures carry the key C12/recovery-limit-range-resolution (open known finding;
+                      # 3 of 48 such fits ended at chi^2 0.08..0.13) and they are left out of the run-level statistics.  Only the
+                      # thorough tier's wide range generates them; the standard range excludes them by construction.
 
 METHODS = ["leastsq", "least_squares", "nelder", "lbfgsb", "powell", "cg", "bfgs", "tnc", "slsqp"]
 WEIGHTS = ["unity", "modulus", "proportional", "boukamp"]
@@ -582,7 +587,7 @@ def check_fit(item):
             bump("limit-resolution_items_above_CHI_TOL")
         if not chi <= CHI_TOL:
             bad("C12/recovery-limit-range-resolution" if high_z else f"C12/recovery-chisqr:{item['shape']}", f"pseudo chi-squared {chi:.3g} > {CHI_TOL:g} (winner {result.method}/{result.weight}, worst parameter error {best:.3g})")
-        if chi <= CONV_CHI and not best <= PAR_TOL:
+        if not best <= PAR_TOL:
             tv = [float(p[0]) for leaf in fm.leaves(item["truth"]) for p in leaf[2].values()]
             bad("C12/recovery-limit-range-resolution" if high_z else f"C12/recovery-params:{item['shape']}", f"generating values {tv} returned as {fitted} (rel. error {best:.3g}, chi-squared {chi:.3g}, winner {result.method}/{result.weight})")
     fixed_mask = tuple(bool(x) for s in in_state for x in s[4].values())
